@@ -175,15 +175,18 @@ class Parser(object):
                 line, pos
             )
 
-    def _is_type_sizer_compatible(self, typename, seen=()):
-        if typename in {type_ + width for type_ in 'ui' for width in ['8', '16', '32', '64']}:
-            return True
-        elif typename in seen:
-            return False
-        elif typename in self.typedecls and isinstance(self.typedecls[typename], model.Typedef):
-            return self._is_type_sizer_compatible(self.typedecls[typename].type_name, seen + (typename,))
-        else:
-            return False
+    def _is_type_sizer_compatible(self, typename):
+        integers = {type_ + width for type_ in 'ui' for width in ['8', '16', '32', '64']}
+        seen = set()
+        while typename not in integers:
+            if typename in seen:
+                return False
+            seen.add(typename)
+            definition = self.typedecls.get(typename)
+            if not isinstance(definition, model.Typedef):
+                return False
+            typename = definition.type_name
+        return True
 
     def p_specification(self, t):
         '''specification : definition_list'''
